@@ -182,3 +182,17 @@ Definition spec_view_write (v : view) (a : arr) (cnt off : list Z) (gen : nat ->
     Ok (with_data a (a_shape a)
           (tab (a_shape a) (fun i => if in_slab base rc i then gen (Z.to_nat (ravel rc (vsub i base))) else get a i)))
   else Err oob.
+
+(** * Value transfers through a view (the templates getData(value, offset) / setData(value, offset))
+
+    A scalar value ([vshape] = []) stands for exactly ONE element: a count of ones.  With an empty offset that is the
+    element at the window origin.  A vector value of n elements is the count [n].  The outcome is the one of the
+    corresponding (count, offset) request: the elements or OutOfBounds - never an access outside the value. *)
+Definition spec_value_count (v : view) (vshape : list Z) : list Z :=
+  match vshape with [] => repeat 1 (List.length (v_count v)) | _ :: _ => vshape end.
+
+Definition spec_get_value (v : view) (a : arr) (vshape off : list Z) : res (list V) :=
+  spec_view_read v a (spec_value_count v vshape) off.
+
+Definition spec_set_value (v : view) (a : arr) (vshape off : list Z) (gen : nat -> V) : res arr :=
+  spec_view_write v a (spec_value_count v vshape) off gen.
